@@ -1,12 +1,56 @@
 /-
-Driver commands of property C16 (core Lean only).  Command names start with "c16.".
+Driver commands of property C16 (core Lean only).
+CIGAR syntax: `typ:len,typ:len` or `-`.  Long bin lists are summarised as `#count:sum:first:last`.
 -/
 import Hts.Drv.Util
+import Hts.Model.Coord
 namespace Hts.Drv.C16
-open Hts.Drv
+open Hts.Drv Hts.Model.Coord
+
+def parseOp (s : String) : Option CigarOp :=
+  match s.splitOn ":" with
+  | [t, n] => do some ⟨← parseNat t, ← parseNat n⟩
+  | _ => none
+
+def parseCigar (s : String) : Option (List CigarOp) :=
+  if s == "-" then some [] else (s.splitOn ",").mapM parseOp
+
+def parseBool (s : String) : Option Bool :=
+  if s == "1" then some true else if s == "0" then some false else none
+
+def showList (l : List Nat) : String :=
+  if l.length ≤ 48 then
+    (if l.isEmpty then "-" else ",".intercalate (l.map toString))
+  else
+    s!"#{l.length}:{l.foldl (· + ·) 0}:{l.head!}:{l.getLast!}"
+
+def showOpt {α} [ToString α] : Option α → String
+  | some x => toString x
+  | none => "panic"
 
 def handle (cmd : String) (args : List String) : Option String :=
   match cmd, args with
+  | "c16.end", [u, pos, c] => do
+    some (showOpt (recordEnd (← parseBool u) (← parseInt pos) (← parseCigar c)))
+  | "c16.len", [u, pos, c] => do
+    some (showOpt (recordLen (← parseBool u) (← parseInt pos) (← parseCigar c)))
+  | "c16.lengths", [c] => do
+    match cigarLengths (← parseCigar c) with
+    | some (r, q) => some s!"{r} {q}"
+    | none => some "panic"
+  | "c16.isvalid", [n, c] => do
+    some (showOpt ((cigarIsValid (← parseCigar c) (← parseInt n)).map boolStr))
+  | "c16.bin", [u, mu, pos, c] => do
+    some (showOpt (recordBin (← parseBool u) (← parseBool mu) (← parseInt pos) (← parseCigar c)))
+  | "c16.binfor", [b, e] => do some (toString (binFor (← parseInt b) (← parseInt e)))
+  | "c16.bins", [b, e] => do some (showList (overlappingBinsFor (← parseInt b) (← parseInt e)))
+  | "c16.valid", [i] => do some (boolStr (isValidIndexPos (← parseInt i)))
+  | "c16.reg2bin", [b, e, ms, d] => do
+    some (toString (reg2bin (← parseInt b) (← parseInt e) (← parseNat ms) (← parseNat d)))
+  | "c16.reg2bins", [b, e, ms, d] => do
+    some (showList (reg2bins (← parseInt b) (← parseInt e) (← parseNat ms) (← parseNat d)))
+  | "c16.csivalid", [i, ms, d] => do
+    some (boolStr (csiValidIndexPos (← parseInt i) (← parseNat ms) (← parseNat d)))
   | _, _ => none
 
 end Hts.Drv.C16
